@@ -1032,9 +1032,16 @@ class Component(composites.Composite, metaclass=ComponentType):
         if self.parent:
             # changes in dimensions can affect cached variables such as pitch
             self.parent.cached = {}
-            for c in self.getLinkedComponents():
-                # no clearCache since parent already updated derivedMustUpdate in self.clearCache()
-                c.p.volume = None
+            # components may be linked through a chain of other components
+            seen = {id(self)}
+            frontier = [self]
+            while frontier:
+                for c in frontier.pop().getLinkedComponents():
+                    if id(c) not in seen:
+                        seen.add(id(c))
+                        frontier.append(c)
+                        # no clearCache since parent already updated derivedMustUpdate in self.clearCache()
+                        c.p.volume = None
 
     def getLinkedComponents(self):
         """Find other components that are linked to this component."""
